@@ -126,35 +126,53 @@ Section RunProofs.
       exfalso. eapply present_true; eauto. Qed.
 
   (* ---------- C14 ---------- *)
-  Theorem idempotent_sched : check_presence = false ->
+  Lemma present_names o : forall l l', map fst l = map fst l' -> present o l = present o l'.
+  Proof. unfold C08Run.present. induction l as [|x l IH]; intros [|y l'] E; cbn [map] in E; try discriminate; [reflexivity|].
+    injection E as E1 E2. cbn [forallb]. rewrite E1. f_equal. apply IH. exact E2. Qed.
+
+  Lemma present_written l o : NoDup (map fst l) -> present (write_all l o) l = true.
+  Proof. intros Hnd. unfold C08Run.present. apply forallb_forall. intros [f x] Hin. cbn [fst].
+    rewrite (write_all_in l o f x Hnd Hin). reflexivity. Qed.
+
+  Theorem idempotent_sched :
     forall w1 w2 st r st1, run w1 false None st = (r, st1) -> r = Success \/ r = UpToDate ->
     cfg_force (s_cfg st) = false ->
     gfp w2 (s_src st) (s_cfg st) = gfp w1 (s_src st) (s_cfg st) ->
+    map fst (gfiles w2 (s_src st) (s_cfg st)) = map fst (gfiles w1 (s_src st) (s_cfg st)) ->
     run w2 false None st1 = (UpToDate, st1).
-  Proof. intros Hp w1 w2 st r st1 Hrun Hr Hcf Hfp.
+  Proof. intros w1 w2 st r st1 Hrun Hr Hcf Hfp Hnames.
     assert (Hhit : forall t, s_src t = s_src st -> s_cfg t = s_cfg st -> ghas_commands (s_src st) = true ->
-               s_cache t = Some (gfp w1 (s_src st) (s_cfg st)) -> run w2 false None t = (UpToDate, t)).
-    { intros t Es Ec Hc Hca. unfold C08Run.run. rewrite Es, Hc. cbn [negb].
+               s_cache t = Some (gfp w1 (s_src st) (s_cfg st)) ->
+               (check_presence = true -> present (s_out t) (gfiles w1 (s_src st) (s_cfg st)) = true) ->
+               run w2 false None t = (UpToDate, t)).
+    { intros t Es Ec Hc Hca Hpr. unfold C08Run.run. rewrite Es, Hc. cbn [negb].
       unfold C08Run.effective_force. rewrite Ec, Hcf. cbn [orb negb andb].
-      unfold C08Run.cache_hit. rewrite Hca, Es, Ec, Hfp, Hp.
-      replace (fpt_eqb _ _) with true by (symmetry; apply fpt_eqb_spec; reflexivity). reflexivity. }
+      unfold C08Run.cache_hit. rewrite Hca, Es, Ec, Hfp.
+      replace (fpt_eqb _ _) with true by (symmetry; apply fpt_eqb_spec; reflexivity).
+      destruct check_presence; [|reflexivity].
+      rewrite (present_names (s_out t) _ _ Hnames), (Hpr eq_refl). reflexivity. }
     destruct (run_cases w1 false st) as [[Hre Hrun']|[_ [Hst [Hn|(Hu & Hc & Hf & Hh)]]]].
     - rewrite Hrun' in Hrun. inversion Hrun; subst r st1. apply Hhit; try reflexivity.
-      unfold C08Run.regenerates in Hre. apply andb_prop in Hre. tauto.
+      + unfold C08Run.regenerates in Hre. apply andb_prop in Hre. tauto.
+      + intros _. cbn [s_out]. apply present_written. apply files_fun.
     - rewrite Hrun in Hn. cbn [fst] in Hn. subst r. destruct Hr; discriminate.
-    - rewrite Hrun in Hst. cbn [snd] in Hst. subst st1. apply Hhit; try reflexivity; [exact Hc|].
-      unfold C08Run.cache_hit in Hh. destruct (s_cache st) as [h|]; [|discriminate].
-      destruct (fpt_eqb h _) eqn:E; [|discriminate]. apply fpt_eqb_spec in E. subst h. reflexivity. Qed.
+    - rewrite Hrun in Hst. cbn [snd] in Hst. subst st1.
+      unfold C08Run.cache_hit in Hh. destruct (s_cache st) as [h|] eqn:Ec; [|discriminate].
+      destruct (fpt_eqb h _) eqn:E; [|discriminate]. apply fpt_eqb_spec in E. subst h.
+      apply Hhit; try reflexivity; [exact Hc|exact Ec|]. intros Hp. rewrite Hp in Hh. exact Hh. Qed.
 
   (* whatever the invocation looked like: a non-forced run over a record that equals the current
-     fingerprint answers up to date and changes nothing *)
-  Theorem matching_record_noop : check_presence = false ->
+     fingerprint, with the files of the plan present, answers up to date and changes nothing *)
+  Theorem matching_record_noop :
     forall w st, ghas_commands (s_src st) = true -> cfg_force (s_cfg st) = false ->
-    s_cache st = Some (gfp w (s_src st) (s_cfg st)) -> run w false None st = (UpToDate, st).
-  Proof. intros Hp w st Hc Hf Hca. unfold C08Run.run. rewrite Hc. cbn [negb].
+    s_cache st = Some (gfp w (s_src st) (s_cfg st)) ->
+    present (s_out st) (gfiles w (s_src st) (s_cfg st)) = true ->
+    run w false None st = (UpToDate, st).
+  Proof. intros w st Hc Hf Hca Hpr. unfold C08Run.run. rewrite Hc. cbn [negb].
     unfold C08Run.effective_force. rewrite Hf. cbn [orb negb andb].
-    unfold C08Run.cache_hit. rewrite Hca, Hp.
-    replace (fpt_eqb _ _) with true by (symmetry; apply fpt_eqb_spec; reflexivity). reflexivity. Qed.
+    unfold C08Run.cache_hit. rewrite Hca, Hpr.
+    replace (fpt_eqb _ _) with true by (symmetry; apply fpt_eqb_spec; reflexivity).
+    destruct check_presence; reflexivity. Qed.
 
   Theorem force_regenerates : forall w flag st, ghas_commands (s_src st) = true ->
     effective_force flag (s_cfg st) = true ->
@@ -173,9 +191,10 @@ Section RunProofs.
   Proof. reflexivity. Qed.
 
   (* ---------- C17 ---------- *)
-  Theorem fault_faithful : check_presence = false ->
+  Theorem fault_faithful :
     forall w st k r st1, run w false (Some k) st = (r, st1) -> r <> NoCommands -> r <> UpToDate ->
     cfg_force (s_cfg st) = false ->
+    s_cache st <> Some (gfp w (s_src st) (s_cfg st)) ->
     let plan := gfiles w (s_src st) (s_cfg st) in
     s_src st1 = s_src st /\ s_cfg st1 = s_cfg st /\
     (k < length plan -> r = Failure /\ s_cache st1 = s_cache st /\
@@ -185,7 +204,7 @@ Section RunProofs.
     (forall w2 r2 st2, gfp w2 (s_src st) (s_cfg st) = gfp w (s_src st) (s_cfg st) ->
        run w2 false None st1 = (r2, st2) ->
        r2 = Success /\ up_to_date w2 st2 /\ s_cache st2 = Some (gfp w2 (s_src st) (s_cfg st))).
-  Proof. intros Hp w st k r st1 Hrun Hn1 Hn2 Hcf plan.
+  Proof. intros w st k r st1 Hrun Hn1 Hn2 Hcf Hmis plan.
     unfold C08Run.run in Hrun.
     destruct (ghas_commands (s_src st)) eqn:Hc; cbn [negb] in Hrun; [|inversion Hrun; subst; congruence].
     unfold C08Run.effective_force in Hrun. rewrite Hcf in Hrun. cbn [orb negb andb] in Hrun.
@@ -196,8 +215,8 @@ Section RunProofs.
               gfp w2 (s_src st) (s_cfg st) = gfp w (s_src st) (s_cfg st) -> cache_hit w2 t = false).
     { intros t Es Ec Hca w2 Hfp. unfold C08Run.cache_hit in *. rewrite Es, Ec, Hfp.
       destruct Hca as [Hca|Hca]; rewrite Hca; [|reflexivity].
-      destruct (s_cache st) as [h|]; [|reflexivity]. rewrite Hp in *.
-      destruct (fpt_eqb h _); [discriminate|reflexivity]. }
+      destruct (s_cache st) as [h|]; [|reflexivity].
+      destruct (fpt_eqb h _) eqn:E; [|reflexivity]. apply fpt_eqb_spec in E. subst h. exfalso. apply Hmis. reflexivity. }
     assert (Hrec : forall t, s_src t = s_src st -> s_cfg t = s_cfg st ->
               (s_cache t = s_cache st \/ s_cache t = None) -> forall w2 r2 st2,
               gfp w2 (s_src st) (s_cfg st) = gfp w (s_src st) (s_cfg st) ->
@@ -226,6 +245,19 @@ Section RunProofs.
       split. { apply Hmiss; [reflexivity|reflexivity|right; reflexivity|reflexivity]. }
       intros w2 r2 st2 Hfp Hrun2.
       eapply Hrec in Hrun2; [exact Hrun2|reflexivity|reflexivity|right; reflexivity|exact Hfp]. Qed.
+
+  (* every non-forced, fault-free run on a project with commands either regenerates everything or is a
+     cache hit that leaves the state alone *)
+  Theorem recovery_outcomes : forall w t r2 st2, ghas_commands (s_src t) = true ->
+    run w false None t = (r2, st2) ->
+    (r2 = Success /\ up_to_date w st2 /\ s_cache st2 = Some (gfp w (s_src t) (s_cfg t))) \/
+    (r2 = UpToDate /\ st2 = t /\ cache_hit w t = true).
+  Proof. intros w t r2 st2 Hc Hrun. destruct (run_cases w false t) as [[_ Hr]|[_ [Hst [Hn|(Hu & _ & _ & Hh)]]]].
+    - rewrite Hr in Hrun. inversion Hrun; subst r2 st2. left. split; [reflexivity|]. split; [|reflexivity].
+      intros f x Hin. cbn [s_src s_cfg s_out] in *. apply write_all_in; [apply files_fun|exact Hin].
+    - exfalso. unfold C08Run.run in Hn. rewrite Hc in Hn. cbn [negb] in Hn.
+      destruct (negb _ && _); cbn [fst] in Hn; discriminate.
+    - rewrite Hrun in Hu, Hst. cbn [fst snd] in Hu, Hst. right. auto. Qed.
 
   (* the record is written after every file of the plan *)
   Theorem record_last : forall w flag fault st r st1,
